@@ -88,9 +88,12 @@ func getDecoder(packet []byte, state *stateDecode) (*decoder, []byte, error) {
 			return nil, nil, errDecodeEOD
 		}
 
-		dec, _, err := decodeType(packet[:n], state)
+		dec, rest, err := decodeType(packet[:n], state)
 		if err != nil {
 			return nil, nil, err
+		}
+		if len(rest) > 0 {
+			return nil, nil, fmt.Errorf("extra data in folded type: %#v", rest)
 		}
 		packet = packet[n:]
 		return dec, packet, nil
@@ -167,10 +170,6 @@ func decodeType(fold []byte, state *stateDecode) (*decoder, []byte, error) {
 		if err != nil {
 			return nil, nil, fmt.Errorf("unable to unfold type (map value): %s", err)
 		}
-		if len(f) > 0 {
-			return nil, nil, fmt.Errorf("extra data in folded type (map): %#v", f)
-		}
-
 		vtype := reflect.MapOf(decKey.Type, decValue.Type)
 
 		fdec := func(value *reflect.Value, packet []byte, state *stateDecode) (*reflect.Value, []byte, error) {
@@ -249,10 +248,11 @@ func decodeType(fold []byte, state *stateDecode) (*decoder, []byte, error) {
 			Decode: fdec,
 		}
 		if state.options.Cache != nil {
-			state.options.Cache.LoadOrStore(string(fold), &dec)
+			state.options.Cache.LoadOrStore(string(fold[:len(fold)-len(f)]), &dec)
 		}
 
-		return &dec, nil, nil
+		// the rest of the fold belongs to the caller (the value type of a map with this key type)
+		return &dec, f, nil
 
 	case edtSlice:
 		// unfold key type
@@ -260,10 +260,6 @@ func decodeType(fold []byte, state *stateDecode) (*decoder, []byte, error) {
 		if err != nil {
 			return nil, nil, fmt.Errorf("unable to unfold type (slice): %s", err)
 		}
-		if len(f) > 0 {
-			return nil, nil, fmt.Errorf("extra data in folded type (slice): %#v", f)
-		}
-
 		vtype := reflect.SliceOf(decItem.Type)
 
 		fdec := func(value *reflect.Value, packet []byte, state *stateDecode) (*reflect.Value, []byte, error) {
@@ -331,10 +327,11 @@ func decodeType(fold []byte, state *stateDecode) (*decoder, []byte, error) {
 			Decode: fdec,
 		}
 		if state.options.Cache != nil {
-			state.options.Cache.LoadOrStore(string(fold), &dec)
+			state.options.Cache.LoadOrStore(string(fold[:len(fold)-len(f)]), &dec)
 		}
 
-		return &dec, nil, nil
+		// the rest of the fold belongs to the caller (the value type of a map with this key type)
+		return &dec, f, nil
 
 	case edtArray:
 		// length of the array
@@ -349,10 +346,6 @@ func decodeType(fold []byte, state *stateDecode) (*decoder, []byte, error) {
 		if err != nil {
 			return nil, nil, fmt.Errorf("unable to unfold type (array): %s", err)
 		}
-		if len(f) > 0 {
-			return nil, nil, fmt.Errorf("extra data in folded type (array): %#v", f)
-		}
-
 		vtype := reflect.ArrayOf(n, decItem.Type)
 
 		fdec := func(value *reflect.Value, packet []byte, state *stateDecode) (*reflect.Value, []byte, error) {
@@ -391,10 +384,11 @@ func decodeType(fold []byte, state *stateDecode) (*decoder, []byte, error) {
 		}
 
 		if state.options.Cache != nil {
-			state.options.Cache.LoadOrStore(string(fold), &dec)
+			state.options.Cache.LoadOrStore(string(fold[:len(fold)-len(f)]), &dec)
 		}
 
-		return &dec, nil, nil
+		// the rest of the fold belongs to the caller (the value type of a map with this key type)
+		return &dec, f, nil
 
 	case edtReg:
 		return getRegDecoder(fold[1:], state)
